@@ -200,8 +200,7 @@ inductive Pc
   | ret (mask : St) (restart : Bool)
   | done
   | fail (c : ErrCls)
-  /-- the library panicked (known finding: a stream error where a stream header is expected,
-  internal/stream/reader.go) -/
+  /-- the library panicked (never reached: kept so that the driver can name the outcome) -/
   | crash
   /-- the pick script does not describe a possible map iteration -/
   | stuck
@@ -255,7 +254,7 @@ def readHdr (O : Oracle) (c : Conf) (next : Pc) : Conf :=
   else match c.script with
     | [] => { c with io := c.io + 1, tr := .rd .hdr .eof :: c.tr, pc := .fail .io }
     | .hdr true :: r => { c with io := c.io + 1, tr := .rd .hdr .got :: c.tr, script := r, pc := next }
-    | .serr :: r => { c with io := c.io + 1, tr := .rd .hdr .got :: c.tr, script := r, pc := .crash }
+    | .serr :: r => { c with io := c.io + 1, tr := .rd .hdr .got :: c.tr, script := r, pc := .fail .streamErr }
     | _ :: r => { c with io := c.io + 1, tr := .rd .hdr .got :: c.tr, script := r, pc := .fail .proto }
 
 /-- the call of `Negotiate` and what the selection loop does with its result -/
